@@ -410,9 +410,10 @@ class Fn:
     def run(self, params):
         env = {n: ('a_' + n, kd) for n, kd in params}
         env[NN] = frozenset()
+        # the parameter names are fixed by plain_def; no other binding (assignment, `as`, nested def) of an interpreted name
         local = {n.id for n in ast.walk(self.fdef) if isinstance(n, ast.Name) and not isinstance(n.ctx, ast.Load)}
-        local |= {getattr(n, 'name', None) for n in ast.walk(self.fdef) if n is not self.fdef} | {a.arg for a in ast.walk(self.fdef.args) if isinstance(a, ast.arg)}
-        if (local - {self.selfname, self.ctxname}) & RESERVED or any(isinstance(n, (ast.Global, ast.Nonlocal)) for n in ast.walk(self.fdef)):
+        local |= {getattr(n, 'name', None) for n in ast.walk(self.fdef) if n is not self.fdef}
+        if local & RESERVED or any(isinstance(n, (ast.Global, ast.Nonlocal)) for n in ast.walk(self.fdef)):
             bad(self.fdef, 'a name the translator interprets is bound locally')
 
         def end(_):
